@@ -157,6 +157,43 @@ func VerifyFunction(prog *ssa.Program, db *ContractDB, fn *ssa.Function, fc *Fun
 	// package invariants over initialise-once globals: assumed at the entry of every function of
 	// the package except the initialiser and its closures (ginv.go)
 	if fn.Pkg != nil && !isPkgInit(fn) && !isInitClosure(fn) {
+		if gis := ginvsFor(db, fn.Pkg.Pkg.Path()); len(gis) > 0 {
+			// ... and again after every call that may have changed arbitrary memory: nobody can
+			// reach these variables, so the invariant still holds
+			enc.afterHavoc = func(hs, before *State) {
+				henv := fv.preEnv(hs)
+				for _, gi := range gis {
+					hs.assume(fv.safeEvalBool(henv, gi.E, "package invariant"))
+					// the variables themselves (and the arrays behind slice-typed ones) are what
+					// they were: nothing outside the initialiser can reach them
+					for _, gname := range gi.Globals {
+						g, ok := fn.Pkg.Members[gname].(*ssa.Global)
+						if !ok {
+							continue
+						}
+						gv := hs.get(g)
+						if gv.Place == nil {
+							continue
+						}
+						nv := hs.load(gv.Place)
+						ov := before.load(gv.Place)
+						for i := range nv.L {
+							if i < len(ov.L) {
+								hs.assume(Eq(nv.L[i], ov.L[i]))
+							}
+						}
+						if sl, isSlice := nv.Typ.Underlying().(*types.Slice); isSlice {
+							for _, l := range flatten(sl.Elem()) {
+								name := "E_" + typeKey(sl.Elem()) + l.Suffix
+								na := hs.heapArr(name, arrSort(arrSort(l.Sort)))
+								oa := before.heapArr(name, arrSort(arrSort(l.Sort)))
+								hs.assume(Eq(Select(na, nv.L[0]), Select(oa, ov.L[0])))
+							}
+						}
+					}
+				}
+			}
+		}
 		for _, gi := range ginvsFor(db, fn.Pkg.Pkg.Path()) {
 			st.assume(fv.safeEvalBool(env, gi.E, "package invariant"))
 			enc.assumedUsed["package invariant "+gi.Src+" over "+strings.Join(gi.Globals, ", ")+": established by the package initialiser (obligation of init) and preserved because these variables are written only there and never handed out (ssa-scan obligations)"] = true
